@@ -33,8 +33,9 @@ GRAMMAR
            | self.params[1] ==|!= other.params[1] | numpy.array_equal(X.params[n], Y.params[n]) | numpy.array_equal(X.params, Y.params)
            (X, Y = self, other in either order)
   __hash__(self)
-    if self.calc_type ==|!= ElasticModulusCalculationType.SHEAR: return H   else: return H        | return H
-    H ::= H ^ H | H + H | H * int | int | hash(X) | hash((X, ...))
+    (name = H)*  then  if self.calc_type ==|!= ElasticModulusCalculationType.SHEAR: return H  [else:] return H   | return H
+    (locals are pure hash expressions, substituted; each must be read by every return)
+    H ::= H ^ H | H + H | H * int | int | hash(X) | hash((X, ...)) | local
     X ::= self.calc_type | self.params[n] | tuple(self.params[n].flatten().tolist()) | tuple(self.params[n].tolist())
         | self.params[n].tobytes()
 
@@ -262,11 +263,14 @@ def hash_obj(me, x):
     return None
 
 
-def hash_expr(me, e):
+def hash_expr(me, e, env=None):
+    env = env or {}
+    if isinstance(e, ast.Name) and e.id in env:
+        return env[e.id]
     if isinstance(e, ast.BinOp) and isinstance(e.op, (ast.BitXor, ast.Add)):
-        return "(HBin %s %s)" % (hash_expr(me, e.left), hash_expr(me, e.right))
+        return "(HBin %s %s)" % (hash_expr(me, e.left, env), hash_expr(me, e.right, env))
     if isinstance(e, ast.BinOp) and isinstance(e.op, ast.Mult) and int_const(e.right) is not None:
-        return "(HBin %s HConst)" % hash_expr(me, e.left)
+        return "(HBin %s HConst)" % hash_expr(me, e.left, env)
     if int_const(e) is not None:
         return "HConst"
     if isinstance(e, ast.Call) and src_of(e.func) == "hash" and len(e.args) == 1 and not e.keywords:
@@ -293,22 +297,48 @@ def translate_hash(cls):
     no_reflection(fn, FILE)
     me = fn.args.args[0].arg
     b = body_no_doc(fn)
+    # leading single-assignment locals `name = H`: pure hash expressions, substituted where they are read.  A local
+    # must be read by EVERY return expression (otherwise an error raised while computing it would be lost).
+    env, reads = {}, {}
+    while b and isinstance(b[0], ast.Assign) and len(b[0].targets) == 1 and isinstance(b[0].targets[0], ast.Name):
+        nm = b[0].targets[0].id
+        if nm in env or nm == me or nm in ("hash", "tuple", "numpy", "ElasticModulusCalculationType"):
+            bail(b[0], "local `%s` assigned twice / shadows a name" % nm)
+        env[nm] = hash_expr(me, b[0].value, env)
+        direct = {n.id for n in ast.walk(b[0].value) if isinstance(n, ast.Name) and n.id in reads}
+        reads[nm] = direct.union(*[reads[d] for d in direct]) if direct else set()
+        b = b[1:]
+    for nm in env:
+        if len(bindings_of(fn, nm)) != 1:
+            bail(fn, "name `%s` is bound more than once in __hash__" % nm)
 
     def ret(ss):
         if len(ss) != 1 or not isinstance(ss[0], ast.Return) or ss[0].value is None:
             bail(ss[0] if ss else fn, "a branch of __hash__ is not a single `return <hash expression>`")
-        return hash_expr(me, ss[0].value)
+        direct = {n.id for n in ast.walk(ss[0].value) if isinstance(n, ast.Name) and n.id in env}
+        seen = direct.union(*[reads[d] for d in direct]) if direct else set()
+        for nm in env:
+            if nm not in seen:
+                bail(ss[0], "local `%s` is computed but not used by this return (its exceptions would be lost)" % nm)
+        return hash_expr(me, ss[0].value, env)
     if len(b) == 1 and isinstance(b[0], ast.Return):
         h = ret(b)
         return h, h
-    if len(b) == 1 and isinstance(b[0], ast.If) and b[0].orelse:
+    if b and isinstance(b[0], ast.If):
+        # `if C: return H else: return H`   or   `if C: return H` followed by `return H` (dropped else after return)
+        if b[0].orelse and len(b) == 1:
+            th_s, el_s = b[0].body, b[0].orelse
+        elif not b[0].orelse and len(b) == 2:
+            th_s, el_s = b[0].body, b[1:]
+        else:
+            bail(b[0], "__hash__ shape (accepted: `if C: return H else: return H` / `if C: return H` + `return H`)")
         t = b[0].test
         if isinstance(t, ast.Compare) and len(t.ops) == 1 and isinstance(t.ops[0], (ast.Eq, ast.NotEq)) and \
                 {src_of(t.left), src_of(t.comparators[0])} == {me + ".calc_type", SHEAR}:
-            th, el = ret(b[0].body), ret(b[0].orelse)
+            th, el = ret(th_s), ret(el_s)
             return (th, el) if isinstance(t.ops[0], ast.Eq) else (el, th)      # (shear, non-shear)
         bail(t, "branch condition `%s` of __hash__" % src_of(t)[:80])
-    bail(b[0] if b else fn, "__hash__ is not `return H` or `if self.calc_type ==|!= %s: return H else: return H`" % SHEAR)
+    bail(b[0] if b else fn, "__hash__ is not `[locals] return H` or `[locals] if self.calc_type ==|!= %s: return H [else:] return H`" % SHEAR)
 
 
 # ---------------------------------------------------------------------------------------------------
